@@ -191,6 +191,20 @@ class Executor:
             run.unfresh.update(unfresh)
         run.success = False
 
+    def note_input_hashes(self, job_i: int, inp_hashes: Mapping[str, FileHash]):
+        """Remember the hashes of inputs that a running step was allowed to use by amending.
+
+        They complete the hashes verified when the run started (`Run.start_inp_hashes`)
+        and serve the same purpose: after the command, the inputs on disk are compared
+        with what the step was given, not with what the workflow has learned since.
+        A hash that is known already is kept: the first one is what the step may have read.
+        """
+        run = self.running.get(job_i)
+        if run is None:
+            raise ValueError(f"No running step found for job_i={job_i}.")
+        for path, inp_hash in inp_hashes.items():
+            run.start_inp_hashes.setdefault(path, inp_hash)
+
     def interrupt(self, sig: int):
         """Send a signal to all currently running step commands, or cancel a running hash."""
         for run in list(self.running.values()):
